@@ -302,7 +302,9 @@ template <typename T, T M>
 void reg_mask_c()
 {
   table0[std::string("mask_c_") + tn<T>() + "_" + str(static_cast<i128>(M))] = [] {
-    constexpr fcppt::bit::mask<T> m{fcppt::bit::mask_c<T, M>()};
+    // evaluated at run time on purpose: a change that makes the function unusable in a constant expression (or undefined
+    // for some instantiation) must still leave a harness that builds, so that the failing call can be shown
+    fcppt::bit::mask<T> const m{fcppt::bit::mask_c<T, M>()};
     return show(m.get());
   };
 }
@@ -311,7 +313,7 @@ template <typename T, fcppt::bit::shift_count B>
 void reg_shifted_mask_c()
 {
   table0[std::string("shifted_mask_c_") + tn<T>() + "_" + str(static_cast<i128>(B))] = [] {
-    constexpr fcppt::bit::mask<T> m{fcppt::bit::shifted_mask_c<T, B>()};
+    fcppt::bit::mask<T> const m{fcppt::bit::shifted_mask_c<T, B>()};
     return show(m.get());
   };
 }
@@ -434,6 +436,20 @@ void init2()
   reg_trunc_named<char16_t, char32_t>("c16", "c32");
   reg_trunc_named<char32_t, std::int64_t>("c32", "i64");
   reg_trunc_named<std::int16_t, char16_t>("i16", "c16");
+  // bool is an (unsigned) integral type
+  reg_trunc_named<bool, std::uint8_t>("b", "u8");
+  reg_trunc_named<bool, std::uint16_t>("b", "u16");
+  reg_trunc_named<bool, std::uint32_t>("b", "u32");
+  reg_trunc_named<bool, std::uint64_t>("b", "u64");
+  reg_trunc_named<bool, std::int8_t>("b", "i8");
+  reg_trunc_named<bool, std::int16_t>("b", "i16");
+  reg_trunc_named<bool, std::int32_t>("b", "i32");
+  reg_trunc_named<bool, std::int64_t>("b", "i64");
+  reg_trunc_named<std::uint8_t, bool>("u8", "b");
+  reg_trunc_named<std::uint64_t, bool>("u64", "b");
+  reg_trunc_named<std::int8_t, bool>("i8", "b");
+  reg_trunc_named<std::int32_t, bool>("i32", "b");
+  reg_trunc_named<std::int64_t, bool>("i64", "b");
   reg_second<std::uint8_t>();
   reg_second<std::uint16_t>();
   reg_second<std::uint32_t>();
